@@ -218,9 +218,88 @@ def expand_effect_check(eng, tier, seed):
     return out
 
 
-EXTRA_CHECKS = [expand_effect_check]
+EXTRA_CHECKS = [expand_effect_check]  # the scaling probe is appended below (after its definition)
 
 NATIVE = c01.NATIVE
+
+
+# ------------------------------------------------------------------------------------------------ bounded scaling probe
+def extra_scaling_probe(eng, tier, seed):
+    """Bounded, native, not counted: the analytic queries named by the property on real types whose capacities / extents
+    are astronomically large must return within a fixed time limit, like the same shapes with small capacities do.
+    (The deductive obligations above are what decides C16; this probe gives a concrete failing input for replay.)"""
+    import signal
+    import time as _time
+    from pydsdl import _serializable as S
+    from pathlib import Path
+
+    CM = S.PrimitiveType.CastMode
+    u = lambda n: S.UnsignedIntegerType(n, CM.TRUNCATED)
+
+    def struct(name, *types):
+        return S.StructureType(name="ns." + name, version=S.Version(1, 0),
+                               attributes=[S.Field(t, "f%d" % i) for i, t in enumerate(types)], deprecated=False,
+                               fixed_port_id=None, source_file_path=Path("/tmp/ns/%s.1.0.dsdl" % name), has_parent_service=False)
+
+    def shapes(K):
+        e1 = struct("E", S.VariableLengthArrayType(u(16), 1))            # lengths {8, 24}: residues that cycle
+        yield "uint3[<=K]", lambda: S.VariableLengthArrayType(u(3), K)
+        yield "uint8[<=K]", lambda: S.VariableLengthArrayType(u(8), K)
+        yield "E[K]", lambda: S.FixedLengthArrayType(e1, K)
+        yield "E[<=K]", lambda: S.VariableLengthArrayType(e1, K)
+        yield "struct{uint3[<=K], E[K], uint7}", lambda: struct("Outer", S.VariableLengthArrayType(u(3), K),
+                                                               S.FixedLengthArrayType(e1, K), u(7))
+        yield "delimited(extent 8K)", lambda: S.DelimitedType(struct("D", u(8)), 8 * K)
+
+    def queries(t):
+        b = t.bit_length_set
+        out = [b.min, b.max, b.fixed_length, b.is_aligned_at_byte(), b.is_aligned_at(32)]  # the divisors the property names: 8 and 32
+        out.append(frozenset(b % 32))
+        out.append(b == t.bit_length_set)
+        out.append(hash(b))
+        out.append(t == t)
+        out.append(hash(t))
+        if isinstance(t, S.CompositeType):
+            out.append(t.extent)
+            for f, off in t.iterate_fields_with_offsets():
+                out.append(off.is_aligned_at_byte())
+        return out
+
+    class _TO(Exception):
+        pass
+
+    def _alarm(sig, frm):
+        raise _TO()
+
+    limit = 10
+    violations, checked, slowest = [], 0, 0.0
+    caps = [3, 2 ** 24 + 1, 2 ** 40, 2 ** 63] if tier == "quick" else [3, 255, 2 ** 16 + 1, 2 ** 24 + 1, 2 ** 32, 2 ** 40, 2 ** 63 - 1, 2 ** 63]
+    # nested variable-length composites with moderate capacities (no capacity is huge, the product of the sizes is)
+    nested = lambda J, K: S.VariableLengthArrayType(struct("N", S.VariableLengthArrayType(u(8), J)), K)
+    cases = [("%s with K=%d" % (nm, K), mk) for K in caps for nm, mk in shapes(K)]
+    cases += [("{uint8[<=%d]}[<=%d]" % (J, K), (lambda J=J, K=K: nested(J, K))) for J, K in ((8, 32), (16, 16), (40, 60))]
+    for label, mk in cases:
+        old = signal.signal(signal.SIGALRM, _alarm)
+        signal.alarm(limit)
+        t0 = _time.time()
+        try:
+            queries(mk())
+            checked += 1
+        except _TO:
+            violations.append({"name": "C16/native#analytic-queries-within-time-limit", "concrete": {"type": label},
+                               "detail": "min/max/alignment/equality/hash/extent/offset queries did not finish within %d s" % limit})
+        except MemoryError:
+            violations.append({"name": "C16/native#analytic-queries-within-time-limit", "concrete": {"type": label},
+                               "detail": "MemoryError"})
+        finally:
+            signal.alarm(0)
+            signal.signal(signal.SIGALRM, old)
+        slowest = max(slowest, _time.time() - t0)
+        if violations:
+            break
+    return {"check": "analytic queries on types with huge capacities finish within %d s (bounded, native)" % limit,
+            "types": checked, "slowest_s": round(slowest, 3), "violations": violations}
+
 import os as _os
 
 # PYVC_NATIVE_BUDGET=0 switches the native cross-check off (used for mutants that make the real code enumerate 2**63-fold
@@ -230,3 +309,6 @@ NATIVE_BUDGET = {"quick": int(_os.environ.get("PYVC_NATIVE_BUDGET", "40")),
 NOT_COVERED = []
 EXPLANATION = ""
 ASSUMPTIONS = []
+
+
+EXTRA_CHECKS.append(extra_scaling_probe)
